@@ -1,6 +1,7 @@
 //! C05: the real type translator on one type.
 //!   c05_parse_type  {src}                       syn::parse_str::<Type> ; RustType::try_from  -> IR JSON (dump.rs format)
 //!   c05_format_type {lang, cfg, generics, ty}   Language::format_type on an IR type (ir.rs format) -> text
+//!   c05_format_seq  {lang, cfg, calls: [{generics, ty}]}   the same, call after call on ONE Language value -> [text | err]
 use crate::{dump, gen, guarded, ir};
 use serde_json::{json, Value};
 use typeshare_core::rust_types::{RustType, RustTypeParseError};
@@ -34,6 +35,24 @@ pub fn handle(cmd: &str, v: &Value) -> Value {
                     Ok(s) => json!({"ok": s}),
                     Err(e) => json!({"err": e.to_string()}),
                 }
+            })
+        }
+        "c05_format_seq" => {
+            let lang = v["lang"].as_str().unwrap_or("typescript").to_string();
+            let cfg = v["cfg"].clone();
+            let calls: Vec<Value> = v["calls"].as_array().cloned().unwrap_or_default();
+            guarded(move || {
+                let mut l = gen::language(&lang, &cfg, false);
+                let mut out = Vec::new();
+                for c in &calls {
+                    let generics: Vec<String> = c["generics"].as_array().map(|a| a.iter().map(|x| x.as_str().unwrap_or_default().to_string()).collect()).unwrap_or_default();
+                    let rt = ir::ty(&c["ty"]);
+                    out.push(match l.format_type(&rt, &generics) {
+                        Ok(s) => json!({"ok": s}),
+                        Err(e) => json!({"err": e.to_string()}),
+                    });
+                }
+                json!({"seq": out})
             })
         }
         _ => json!({"bad": "cmd"}),
